@@ -38,11 +38,17 @@ def cases(tier, seed):
             cs.append(("bt", tuple(rng.choice([1e-6, 1e-3, 0.2, 1, 7, 1000, 0.31, 0.05]) for _ in range(n)), rng.choice([0, 1])))
     cs.append(("bt-pair", (1, 2e-7, 1e-7), (1, 1e-7, 2e-7)))
     cs.append(("bt-pair", (0.5, 0.3000001, 0.2), (0.5, 0.3000004, 0.2)))
+    # several blocs in one generator: each bloc's table comes from its own interval, however close the intervals are
+    cs.append(("bt-blocs", (0.5, 0.5 - 2e-9, 2e-9), (0.5, 0.5 - 8e-9, 8e-9)))
+    cs.append(("bt-blocs", (1, 2, 3), (1, 2, 3.0000001)))
+    cs.append(("bt-blocs", (0.2, 0.3, 0.5), (0.5, 0.3, 0.2)))
     for a in (1, 2, 3):
         for b in (1, 2, 3):
             for c in (0.05, 0.2, 0.5, 0.8, 1.0):
                 for c2 in (0.3, 1.0):
                     cs.append(("sbt", a, b, c, c2))
+                    if a + b <= 4:
+                        cs.append(("sbt", a, b, c, c2, "zero-support"))  # a listed candidate without support does not enter the comparison counts
     return cs
 
 
@@ -136,6 +142,36 @@ def check_case(case):
             sub = check_case(("bt", tuple(sup), 0))
             out["violations"] += [dict(v, key=v["key"] + "[second-computation]") for v in sub["violations"]]
         return out
+    if kind == "bt-blocs":
+        # two blocs X, Y; slate X = {x0}, slate Y = the listed supports; each bloc has its own view of slate Y
+        sups = case[1:]
+        blocs = ["X", "Y"][:len(sups)]
+        ynames = [f"y{i}" for i in range(len(sups[0]))]
+        views = {b: {"X": {"x0": 1.0}, "Y": dict(zip(ynames, sp))} for b, sp in zip(blocs, sups)}
+        coh = {b: {"X": 0.5, "Y": 0.5} for b in blocs}
+        gen = bg.name_BradleyTerry(candidates=["x0"] + ynames,
+                                   pref_intervals_by_bloc={b: {s_: PreferenceInterval(dict(raw)) for s_, raw in v.items()} for b, v in views.items()},
+                                   bloc_voter_prop={b: 1 / len(blocs) for b in blocs}, cohesion_parameters=coh)
+        for b in blocs:
+            x = {}
+            for s_, raw_ in views[b].items():
+                t = sum(F(v) for v in raw_.values())
+                for c, v in raw_.items():
+                    x[c] = F(coh[b][s_]) * F(v) / t
+            raw = {}
+            for perm in itertools.permutations(list(x)):
+                pr = F(1)
+                for i_ in range(len(perm)):
+                    for j_ in range(i_ + 1, len(perm)):
+                        pr *= x[perm[i_]] / (x[perm[i_]] + x[perm[j_]])
+                raw[perm] = pr
+            Z = sum(raw.values())
+            pdf = gen.pdfs_by_bloc[b]
+            for perm, pr in raw.items():
+                if perm not in pdf or not close(pdf[perm], float(pr / Z)):
+                    viol("bt:value[several-blocs]", f"bloc {b} (slate-Y supports {views[b]['Y']}) {perm}: {pdf.get(perm)} != {float(pr / Z)}")
+                    break
+        return out
     if kind == "bt":
         _, sup, with_zero = case
         names = [f"c{i}" for i in range(len(sup))]
@@ -167,9 +203,13 @@ def check_case(case):
             viol("bt:sum", f"{sum(pdf.values())}")
         return out
     if kind == "sbt":
-        _, a, b, c, c2 = case
+        _, a, b, c, c2 = case[:5]
         s2c = {"A": [f"a{i}" for i in range(a)], "B": [f"b{i}" for i in range(b)]}
         pis = {bl: {"A": PreferenceInterval({x: 1 + i for i, x in enumerate(s2c["A"])}), "B": PreferenceInterval({x: 2 + i for i, x in enumerate(s2c["B"])})} for bl in "AB"}
+        if len(case) > 5:
+            s2c = {"A": s2c["A"] + ["az"], "B": s2c["B"] + ["bz"]}
+            pis = {bl: {"A": PreferenceInterval(dict({x: 1 + i for i, x in enumerate(s2c["A"][:-1])}, az=0)),
+                        "B": PreferenceInterval(dict({x: 2 + i for i, x in enumerate(s2c["B"][:-1])}, bz=0))} for bl in "AB"}
         coh = {"A": {"A": c, "B": 1 - c}, "B": {"B": c2, "A": 1 - c2}}
         try:
             gen = bg.slate_BradleyTerry(slate_to_candidates=s2c, pref_intervals_by_bloc=pis, bloc_voter_prop={"A": 0.5, "B": 0.5}, cohesion_parameters=coh)
